@@ -55,7 +55,4 @@ theorem split_args (n p : ℚ) : Gen.splitStart n p = 0 ∧ Gen.splitStop n p = 
   unfold Gen.splitStart Gen.splitStop Gen.splitCount
   refine ⟨?_, ?_, ?_⟩ <;> ring
 
-theorem split_parts_are_slices : Gen.splitPartsAreSlices = true := by
-  rfl
-
 end G.C19Gen
